@@ -113,7 +113,12 @@ inductive Op where
   | suspend
   | resume (toks : List Tok)
   | commit
-  /-- unlock, drop the `Repository` object, open a new one and lock it -/
+  /-- unlock, drop the `Repository` object, open a new one and lock it.  With an
+  open write group `PackRepository.unlock` aborts the group (resumed packs are
+  deleted from `upload/`); the `BzrError("Must end write group before releasing
+  write lock")` it raises is swallowed by its `@only_raises(LockNotHeld,
+  LockBroken)` decorator, so the caller sees a normal return.  The new object
+  has no group. -/
   | reopen
   deriving DecidableEq, Repr
 
@@ -141,19 +146,28 @@ def missingCompressionParent (own all : Pack) : Bool :=
     | some p => !hasKey own ⟨r.key.kind, p⟩
     | none => false
 
+/-- the revisions added by the write group (`key_dependencies.get_new_keys()`) -/
+def newRevIds (all : Pack) : List Nat := (all.filter (·.key.kind == .rev)).map (·.key.id)
+
+/-- the present parent inventories of the new revisions' inventories that are not themselves new
+(`parent_invs_only_keys`) -/
+def parentOnlyInvs (own all : Pack) : List Nat :=
+  ((newRevIds all).flatMap fun i => match invRec own i with | some r => r.invParents | none => []).filter
+    fun p => hasKey own ⟨.inv, p⟩ && !(newRevIds all).contains p
+
+/-- the text keys `_check_new_inventories` requires: named by the root pages of the new inventories that
+are not root pages of parent-only inventories, and not named by the latter's pages -/
+def neededTexts (own all : Pack) : List Nat :=
+  let oldRoots := rootsOf own (parentOnlyInvs own all)
+  ((itemsOf own ((rootsOf own (newRevIds all)).filter fun c => !oldRoots.contains c)).filter
+    fun t => !(itemsOf own oldRoots).contains t)
+
 /-- `_check_new_inventories` returns problems -/
 def inventoryProblems (own all : Pack) : Bool :=
-  let newRevs := (all.filter (·.key.kind == .rev)).map (·.key.id)
-  if newRevs.any (fun i => !hasKey own ⟨.inv, i⟩) then true else
-  let parents := newRevs.flatMap fun i => match invRec own i with | some r => r.invParents | none => []
-  let parentOnly := parents.filter fun p => hasKey own ⟨.inv, p⟩ && !newRevs.contains p
-  let newRoots := rootsOf own newRevs
-  let oldRoots := rootsOf own parentOnly
-  if (newRoots ++ oldRoots).any (fun c => !hasKey own ⟨.chk, c⟩) then true else
-  let interesting := newRoots.filter fun c => !oldRoots.contains c
-  let oldItems := itemsOf own oldRoots
-  let needed := (itemsOf own interesting).filter fun t => !oldItems.contains t
-  needed.any fun t => !hasKey own ⟨.text, t⟩
+  if (newRevIds all).any (fun i => !hasKey own ⟨.inv, i⟩) then true else
+  if (rootsOf own (newRevIds all) ++ rootsOf own (parentOnlyInvs own all)).any (fun c => !hasKey own ⟨.chk, c⟩)
+  then true else
+  (neededTexts own all).any fun t => !hasKey own ⟨.text, t⟩
 
 /-- `_commit_write_group` raises `BzrCheckError`: the object remembers a missing
 compression parent, a resumed pack fails `_check_references`, or
@@ -227,7 +241,7 @@ def step (fmt : Fmt) (r : Repo) : Op → Repo × Res
                   upload := removeAll r.upload g.resumed, wg := none }, .ok)
   | .reopen =>
     match r.wg with
-    | some _ => (r, .err .alreadyInWG)
+    | some g => ({ r with upload := removeAll r.upload g.resumed, wg := none, stale := [] }, .ok)
     | none => ({ r with stale := [] }, .ok)
 
 def run (fmt : Fmt) (r : Repo) : List Op → Repo × List Res
